@@ -70,7 +70,7 @@ Get(f, k, d)  == IF k \in DOMAIN f THEN f[k] ELSE d
 Range(f)      == {f[x] : x \in DOMAIN f}
 Max(a, b)     == IF a > b THEN a ELSE b
 
-EmptyDoc == [id |-> "", vms |-> {}, auth |-> {}, asrt |-> {}]
+EmptyDoc == [id |-> "", vms |-> {}, auth |-> {}, asrt |-> {}, ex |-> ""]
 
 \* The custom-module state as one value, so that a transaction can run on a copy.
 CS == [ao |-> aolOwners, at |-> aolTopics, aw |-> aolWriters, ar |-> aolRecords,
@@ -117,11 +117,13 @@ AolAddRecord(m, s, now) ==
 
 -----------------------------------------------------------------------------
 (* x/did — abstract documents and proofs                                   *)
-(* doc   = [id, vms : set of [n,key,type], auth : set of [n,ded,key,type], asrt : set of names] *)
+(* doc   = [id, vms : set of [n,key,type], auth : set of [n,ded,key,type], asrt : set of names,    *)
+(*          ex : "" | "rich" (controller list, second context, key agreement, capability            *)
+(*          invocation, three services two of which share an id - carried verbatim by the registry)] *)
 (* proof = [key, data, seq]: a real secp256k1 signature by `key` over       *)
 (*         proto(DataWithSeq{marshal(data), seq}); key "none" = no signature *)
 
-DeactDoc(d) == [id |-> d, vms |-> {}, auth |-> {}, asrt |-> {}]   \* sign data of a deactivation: DIDDocument{Id: did}
+DeactDoc(d) == [id |-> d, vms |-> {}, auth |-> {}, asrt |-> {}, ex |-> ""]   \* sign data of a deactivation: DIDDocument{Id: did}
 
 VmByName(doc, n) == {v \in doc.vms : v.n = n}
 
